@@ -20,6 +20,7 @@ Operation descriptors are hashable tuples made of plain values (DESIGN 3.1):
 import contextlib
 import io
 import os
+import re
 
 from . import common, qast, refmodel
 
@@ -321,10 +322,18 @@ class World:
             return None
 
     def tmp_listing(self):
-        return sorted(os.listdir(common.tmp_dir()))
+        return sorted(_norm_name(n) for n in os.listdir(common.tmp_dir()))
 
     def db_listing(self):
-        return sorted(os.listdir(common.db_dir()))
+        return sorted(_norm_name(n) for n in os.listdir(common.db_dir()))
+
+
+_TMPNAME = re.compile(r"^tmp[A-Za-z0-9_]{8}")
+
+
+def _norm_name(n):
+    """Random temp-file names are normalised so that observations are deterministic."""
+    return _TMPNAME.sub("tmp<random>", n)
 
 
 READ_OPS = ("count", "get", "contains", "search", "search_unsorted", "len", "getter", "select")
